@@ -45,6 +45,10 @@ type buildEnv struct {
 
 func (b *buildEnv) cleanup() {
 	if b != nil && b.dir != "" {
+		if os.Getenv("VSIM_KEEP") != "" {
+			fmt.Fprintln(os.Stderr, "vsim: keeping build directory", b.dir)
+			return
+		}
 		os.RemoveAll(b.dir)
 	}
 }
